@@ -72,6 +72,8 @@ def varTypeOf : Sexp → Option VarType
   | .atom "none" => some .none
   | .list [.atom "simple", t] => (simpleOf t).map .simple
   | .list [.atom "named", n] => (Sexp.chars? n).map .named
+  -- the text of the `typeRef` attribute, resolved as the builder resolves it
+  | .list [.atom "ref", r] => (Sexp.chars? r).map (fun r => VarType.ofRef (some r))
   | _ => none
 
 def kindStr : Kind → String
